@@ -480,6 +480,23 @@ def _short_theta(theta):
     return "[" + ", ".join(t if len(t) <= 6 else t[:4] + ["...(%d)" % len(t)]) + "]"
 
 
+def _concrete(case):
+    """the actual arrays of a (small) case, for the replay file"""
+    out = {}
+    try:
+        if "theta_kind" in case:
+            th = make_theta(case["theta_kind"], case.get("A", 1), case["seed"])
+            out["theta_degrees"] = None if th is None else th.tolist()
+        if case["kind"] == "iradon" and case["N"] <= 16:
+            th = make_theta(case["theta_kind"], case["A"], case["seed"])
+            out["sinogram_A_by_N"] = make_sino(case["sino_kind"], case["N"], th, case["seed"]).tolist()
+        if case["kind"] in ("radon", "theta0") and case["n"] <= 16:
+            out["image"] = make_image(case["img_kind"], case["n"], case["seed"]).tolist()
+    except Exception:  # noqa
+        pass
+    return out
+
+
 def _public(case):
     return {k: v for k, v in case.items() if not k.startswith("_")}
 
@@ -590,7 +607,7 @@ def check_oracle(ctx: Ctx):
                     worst[kind] = max(worst.get(kind, 0.0), case[m])
     for key in sorted(fails):
         size, what, case, detail = fails[key]
-        ctx.violation(key, what, {"kind": "oracle", "case": _public(case), "detail": detail})
+        ctx.violation(key, what, {"kind": "oracle", "case": _public(case), "detail": detail, **_concrete(case)})
     ctx.cov["worst_relative_error_seen"] = {k: float("%.3g" % v) for k, v in worst.items()}
     for knd in ("radon", "iradon", "filter"):
         sel = [c for c in cases if c["kind"] == knd]
@@ -1001,6 +1018,10 @@ def replay(ctx: Ctx, path):
         if case["kind"] in ("radon", "iradon"):
             theta = make_theta(case["theta_kind"], case["A"], case["seed"])
             print("angles (degrees):", "None (library default)" if theta is None else theta.tolist())
+        for k, v in _concrete(case).items():
+            if k != "theta_degrees":
+                print("%s:" % k)
+                print(np.array2string(np.asarray(v), precision=4, max_line_width=160))
         if res is None:
             print("oracle: property holds on this case", {k: v for k, v in case.items() if k.startswith("_")})
             return 0
